@@ -1203,7 +1203,11 @@ impl<T, L: Clone + Layout> TensorBase<Vec<T>, L> {
     {
         let mut new_layout = self.layout.clone();
         new_layout.resize_dim(axis, new_size);
-        let new_data_len = new_layout.min_data_len();
+
+        // `new_size` is arbitrary, so compute the required length with
+        // overflow checks. This also ensures the arithmetic in the overlap
+        // check below cannot overflow.
+        let new_data_len = checked_min_data_len(&new_layout.shape(), &new_layout.strides())?;
 
         let has_capacity = new_data_len <= self.data.capacity()
             && !may_have_internal_overlap(new_layout.shape(), new_layout.strides());
